@@ -275,6 +275,7 @@ func TestVerifC11A(t *testing.T) {
 		s.Close()
 	}
 	c11PartM(t, res, &count)
+	c11PartU(t, res, &count)
 	var ol []string
 	for o := range orders {
 		ol = append(ol, o)
@@ -431,4 +432,86 @@ func toStringSlice(v interface{}) []string {
 		return out
 	}
 	return nil
+}
+
+// c11PartU: requests the core serves itself, outside the router: sys/seal (and the refused
+// forms of it). "A request is routed to a backend only after its request entry was
+// accepted by at least one device" - for sys/seal the effect is the seal itself: for every
+// script of request-logging behaviours of k = 1..2 devices, on a fresh server each time,
+// the node may end up sealed only if a device accepted the request entry, and with every
+// device failing the caller gets an error and the node stays unsealed.
+func c11PartU(t *testing.T, res *vout.Result, count *int) {
+	behaviours := []string{"ok", "error", "panic"}
+	for k := 1; k <= 2; k++ {
+		s0, tok, _ := c11Setup(t, k)
+		img := s0.Image()
+		s0.Close()
+		nscripts := 1
+		for i := 0; i < k; i++ {
+			nscripts *= 3
+		}
+		for sc := 0; sc < nscripts; sc++ {
+			for _, who := range []string{"root", "unprivileged"} {
+				*count++
+				if !vout.Mine(*count) {
+					continue
+				}
+				script := map[string][2]string{}
+				x := sc
+				var desc []string
+				allFail := true
+				for i := 0; i < k; i++ {
+					rb := behaviours[x%3]
+					x /= 3
+					script[fmt.Sprintf("d%d", i)] = [2]string{rb, "ok"}
+					desc = append(desc, fmt.Sprintf("d%d:%s", i, rb))
+					if rb == "ok" {
+						allFail = false
+					}
+				}
+				s := Boot(t, img)
+				token := s.Root
+				if who == "unprivileged" {
+					token = tok
+				}
+				c11.mu.Lock()
+				c11.events, c11.script, c11.active = nil, script, true
+				c11.mu.Unlock()
+				var err error
+				func() {
+					defer func() {
+						if r := recover(); r != nil {
+							err = fmt.Errorf("panic: %v", r)
+						}
+					}()
+					err = s.Core.SealWithRequest(rootCtx(), &logical.Request{Operation: logical.UpdateOperation, Path: "sys/seal", ClientToken: token, Connection: &logical.Connection{RemoteAddr: "127.0.0.1"}})
+				}()
+				c11.mu.Lock()
+				c11.active = false
+				ev := append([]c11Event{}, c11.events...)
+				c11.mu.Unlock()
+				sealed := s.Core.Sealed()
+				accepted := false
+				for _, e := range ev {
+					if e.kind == "audit-req" && e.ok {
+						accepted = true
+					}
+				}
+				res.Add("evaluations", 1)
+				res.Add("U_runs", 1)
+				art := map[string]interface{}{"part": "U", "k": k, "script": strings.Join(desc, " "), "caller": who}
+				if sealed && !accepted {
+					res.Violate("c11:audit:sealed-without-accepted-request-entry", fmt.Sprintf("%v: sys/seal took effect (the node is sealed; call error: %v) although no device accepted the request entry (events %v)", art, err, ev), art)
+				}
+				if allFail && err == nil {
+					res.Violate("c11:audit:success-with-all-devices-failing", fmt.Sprintf("%v: every device fails request logging but sys/seal reported success", art), art)
+				}
+				if who == "unprivileged" && sealed {
+					res.Violate("c11:audit:seal-by-unprivileged-token", fmt.Sprintf("%v: a token without sudo on sys/seal sealed the node", art), art)
+				}
+				res.Distinct("nontrivial", fmt.Sprintf("U|k%d|%s|%s|sealed=%v|err=%v", k, strings.Join(desc, " "), who, sealed, err != nil))
+				s.Close()
+			}
+		}
+	}
 }
